@@ -487,4 +487,80 @@ theorem eval_acyclic {Val : Type} (G : Graph Val) (rank : Nat → Nat) (hac : Ac
           simp [Memo.set, hkv]
           rw [hfr2 k hrk, hm1_other k hkv]
 
+/-! ### dict key completions -/
+
+theorem reprLE_trans (a b c : Str) (h1 : reprLE a b = true) (h2 : reprLE b c = true) : reprLE a c = true := by
+  simp only [reprLE, decide_eq_true_eq] at *
+  exact List.le_trans h1 h2
+
+theorem reprLE_total (a b : Str) : (reprLE a b || reprLE b a) = true := by
+  simp only [reprLE, Bool.or_eq_true, decide_eq_true_eq]
+  exact List.le_total _ _
+
+theorem reprLE_antisymm (a b : Str) (h1 : reprLE a b = true) (h2 : reprLE b a = true) : a = b := by
+  simp only [reprLE, decide_eq_true_eq] at *
+  exact List.le_antisymm h1 h2
+
+theorem insertRepr_perm (a : Str) : ∀ l : List Str, (insertRepr a l).Perm (a :: l)
+  | [] => .refl _
+  | b :: l => by
+    unfold insertRepr
+    split
+    · exact .refl _
+    · exact ((insertRepr_perm a l).cons b).trans (List.Perm.swap a b l)
+
+theorem insertRepr_sorted (a : Str) : ∀ l : List Str, l.Pairwise (fun x y => reprLE x y = true) →
+    (insertRepr a l).Pairwise (fun x y => reprLE x y = true)
+  | [], _ => by simp [insertRepr]
+  | b :: l, h => by
+    have hc := List.pairwise_cons.mp h
+    unfold insertRepr
+    split
+    · rename_i hab
+      refine List.pairwise_cons.mpr ⟨?_, h⟩
+      intro x hx
+      rcases List.mem_cons.mp hx with e | hx'
+      · subst e; exact hab
+      · exact reprLE_trans a b x hab (hc.1 x hx')
+    · rename_i hab
+      have hba : reprLE b a = true := by
+        have := reprLE_total a b
+        simp only [Bool.or_eq_true] at this
+        rcases this with h1 | h1
+        · exact absurd h1 hab
+        · exact h1
+      refine List.pairwise_cons.mpr ⟨?_, insertRepr_sorted a l hc.2⟩
+      intro x hx
+      rcases List.mem_cons.mp ((insertRepr_perm a l).subset hx) with e | hx'
+      · subst e; exact hba
+      · exact hc.1 x hx'
+
+theorem sortByRepr_perm : ∀ l : List Str, (sortByRepr l).Perm l
+  | [] => .refl _
+  | a :: l => by
+    show (insertRepr a (sortByRepr l)).Perm (a :: l)
+    exact (insertRepr_perm a _).trans ((sortByRepr_perm l).cons a)
+
+theorem sortByRepr_sorted : ∀ l : List Str, (sortByRepr l).Pairwise (fun x y => reprLE x y = true)
+  | [] => List.Pairwise.nil
+  | a :: l => by
+    show (insertRepr a (sortByRepr l)).Pairwise _
+    exact insertRepr_sorted a _ (sortByRepr_sorted l)
+
+/-- `sorted(., key=repr)` of two lists with the same elements is the same list: the sort key is the
+element itself and its order is total and antisymmetric -/
+theorem sortByRepr_perm_eq (l₁ l₂ : List Str) (h : l₁.Perm l₂) : sortByRepr l₁ = sortByRepr l₂ := by
+  apply List.Perm.eq_of_pairwise (le := fun a b => reprLE a b = true)
+  · intro a b _ _ hab hba
+    exact reprLE_antisymm a b hab hba
+  · exact sortByRepr_sorted l₁
+  · exact sortByRepr_sorted l₂
+  · exact (sortByRepr_perm l₁).trans (h.trans (sortByRepr_perm l₂).symm)
+
+/-- iterating the set of dicts in another order yields the same keys, in another order -/
+theorem getPythonKeys_perm (cfg : DictCfg) (d₁ d₂ : List DictVal) (h : d₁.Perm d₂) :
+    (getPythonKeys cfg d₁).Perm (getPythonKeys cfg d₂) := by
+  unfold getPythonKeys
+  exact h.flatMap_right _
+
 end JediModel.Determinism
